@@ -420,7 +420,8 @@ class Logbook(list):
             del log[0]
             del log[1::5]
         """
-        if index < self.buffindex:
+        position = index + len(self) if index < 0 else index
+        if 0 <= position < self.buffindex:
             self.buffindex -= 1
         return super(self.__class__, self).pop(index)
 
